@@ -255,8 +255,12 @@ func (r *runner) apply(op Op) (err error) {
 		return nil
 	case "ProcessInbound":
 		return r.h.ProcessInbound(BuildMsg(r.u, op.M, "in"))
-	case "SetUnread":
-		msgs, err := r.h.Inbox()
+	case "SetUnread", "SetUnreadOut":
+		fn := r.h.Inbox
+		if op.Op == "SetUnreadOut" {
+			fn = r.h.Outbox
+		}
+		msgs, err := fn()
 		if err != nil {
 			return err
 		}
@@ -265,7 +269,7 @@ func (r *runner) apply(op Op) (err error) {
 				return mailbox.SetUnread(m, op.Flag)
 			}
 		}
-		return fmt.Errorf("message %s not found in inbox", op.M)
+		return fmt.Errorf("message %s not found in folder", op.M)
 	}
 	return fmt.Errorf("unknown op %q", op.Op)
 }
@@ -367,6 +371,10 @@ func randomScenario(u *Universe, rng *rand.Rand, n, length int) Scenario {
 			if prepared {
 				sc.Ops = append(sc.Ops, Op{Op: "ProcessInbound", M: m})
 				inb[m] = true
+			}
+		case k == 12:
+			if out[m] {
+				sc.Ops = append(sc.Ops, Op{Op: "SetUnreadOut", M: m, Flag: rng.Intn(2) == 0})
 			}
 		default:
 			if inb[m] {
